@@ -69,46 +69,3 @@ pub fn verif_u64_from_be(b: [u8; 8]) -> (r: u64)
   ensures r as nat == be64(b@)
 { u64::from_be_bytes(b) }
 
-pub proof fn lemma_be64_bound(s: Seq<u8>)
-  requires s.len() == 8
-  ensures be64(s) <= 0xffff_ffff_ffff_ffff
-{}
-
-pub proof fn lemma_be64_roundtrip(n: nat)
-  requires n <= 0xffff_ffff_ffff_ffff
-  ensures to_be64(n).len() == 8, be64(to_be64(n)) == n
-{
-  let a0 = n / 0x100_0000_0000_0000; let a1 = n / 0x1_0000_0000_0000; let a2 = n / 0x100_0000_0000;
-  let a3 = n / 0x1_0000_0000; let a4 = n / 0x100_0000; let a5 = n / 0x1_0000; let a6 = n / 0x100;
-  assert(a0 < 256);
-  assert(a1 == a0 * 256 + a1 % 256);
-  assert(a2 == a1 * 256 + a2 % 256);
-  assert(a3 == a2 * 256 + a3 % 256);
-  assert(a4 == a3 * 256 + a4 % 256);
-  assert(a5 == a4 * 256 + a5 % 256);
-  assert(a6 == a5 * 256 + a6 % 256);
-  assert(n == a6 * 256 + n % 256);
-}
-
-pub proof fn lemma_be64_inj(s: Seq<u8>)
-  requires s.len() == 8
-  ensures to_be64(be64(s)) =~= s
-{
-  let n = be64(s);
-  assert(n % 256 == s[7] as nat);
-  assert(n / 0x100 == (s[0] as nat) * 0x1_0000_0000_0000 + (s[1] as nat) * 0x100_0000_0000 + (s[2] as nat) * 0x1_0000_0000
-    + (s[3] as nat) * 0x100_0000 + (s[4] as nat) * 0x1_0000 + (s[5] as nat) * 0x100 + (s[6] as nat));
-  assert((n / 0x100) % 256 == s[6] as nat);
-  assert(n / 0x1_0000 == (s[0] as nat) * 0x100_0000_0000 + (s[1] as nat) * 0x1_0000_0000
-    + (s[2] as nat) * 0x100_0000 + (s[3] as nat) * 0x1_0000 + (s[4] as nat) * 0x100 + (s[5] as nat));
-  assert((n / 0x1_0000) % 256 == s[5] as nat);
-  assert(n / 0x100_0000 == (s[0] as nat) * 0x1_0000_0000 + (s[1] as nat) * 0x100_0000 + (s[2] as nat) * 0x1_0000 + (s[3] as nat) * 0x100 + (s[4] as nat));
-  assert((n / 0x100_0000) % 256 == s[4] as nat);
-  assert(n / 0x1_0000_0000 == (s[0] as nat) * 0x100_0000 + (s[1] as nat) * 0x1_0000 + (s[2] as nat) * 0x100 + (s[3] as nat));
-  assert((n / 0x1_0000_0000) % 256 == s[3] as nat);
-  assert(n / 0x100_0000_0000 == (s[0] as nat) * 0x1_0000 + (s[1] as nat) * 0x100 + (s[2] as nat));
-  assert((n / 0x100_0000_0000) % 256 == s[2] as nat);
-  assert(n / 0x1_0000_0000_0000 == (s[0] as nat) * 0x100 + (s[1] as nat));
-  assert((n / 0x1_0000_0000_0000) % 256 == s[1] as nat);
-  assert(n / 0x100_0000_0000_0000 == (s[0] as nat));
-}
